@@ -15,7 +15,8 @@ RULE = (
     "case = (clamp or link type, frame with non-unit directions/normals and origins != 0); inside: creation positions on "
     "the manifold and 0.1 / 1.0 off it, every parameter value of a grid inside the bounds; links: leader moves of size "
     "1e-3, 0.1, 1, 10 in 3 directions (rotation links: turns by +-{1e-3, 0.1, 1, 2.5} rad about the axis). Reference: "
-    "independent closest-point formulas for line/plane/circle, dense sampling for curves and surfaces. non-trivial = a "
+    "independent closest-point formulas for line/plane/circle, dense sampling for curves and surfaces; every clamp/link "
+    "type built from float64 arrays that are changed in place afterwards (every subset) against an untouched twin. non-trivial = a "
     "distinct (type, frame, creation offset | parameter | move) evaluation"
 )
 ASSUMPTIONS = [
@@ -28,7 +29,7 @@ def cases(tier, seed):
     frames = list(range(len(FRAMES))) if tier == "thorough" else sorted({0, 4, 1 + seed % 7})
     out = []
     for fr in frames:
-        for what in ("line", "line_bounds", "plane", "radial", "radial_bounds", "curve_line", "curve_circle", "curve_interp", "surface", "free", "link_translation", "link_rotation", "link_symmetry"):
+        for what in ("line", "line_bounds", "plane", "radial", "radial_bounds", "curve_line", "curve_circle", "curve_interp", "surface", "free", "link_translation", "link_rotation", "link_symmetry", "inputs_mutated"):
             out.append({"what": what, "frame": fr})
     return out
 
@@ -188,6 +189,61 @@ def run_case(case):
                     execs += 1
                     if np.linalg.norm(cl.position - surf((a, b))) > 1e-12:
                         bad("position-off-manifold", f"params ({a},{b})", a=a, b=b)
+    elif what == "inputs_mutated":
+        # the declared constraint is the one given at construction: every clamp/link is built twice from float64 arrays,
+        # the arrays given to the first one are then changed in place (every non-empty subset of them), and both must
+        # keep answering alike
+        import itertools
+
+        def makers():
+            a = lambda v: np.array(v, dtype=float)  # noqa: E731
+            yield "LineClamp", [a(Pt(fr, [0.8, 0.4, 0.0])), a(Pt(fr, [0.2, 0.1, 0.3])), a(Pt(fr, [2.2, 1.1, -0.7]))], lambda x: cb.LineClamp(x[0], x[1], x[2]), [[0.3], [1.7]]
+            yield "LineClamp(bounds)", [a(Pt(fr, [0.8, 0.4, 0.0])), a(Pt(fr, [0.2, 0.1, 0.3])), a(Pt(fr, [2.2, 1.1, -0.7]))], lambda x: cb.LineClamp(x[0], x[1], x[2], (-0.5, 1.5)), [[0.3], [1.2]]
+            yield "PlaneClamp", [a(Pt(fr, [0.9, 0.1, 0.4])), a(Pt(fr, [0.5, -0.2, 0.4])), a(Vc(fr, [1.0, 2.0, -0.5]))], lambda x: cb.PlaneClamp(x[0], x[1], x[2]), [[0.4, -0.7], [2.0, 1.0]]
+            yield "RadialClamp", [a(Pt(fr, [1.0, 0.4, 0.2])), a(Pt(fr, [0.3, 0.4, -0.2])), a(Vc(fr, [0.5, -1.0, 2.0]))], lambda x: cb.RadialClamp(x[0], x[1], x[2]), [[0.3], [-1.1]]
+            yield "FreeClamp", [a(Pt(fr, [0.3, 0.7, -1.1]))], lambda x: cb.FreeClamp(x[0]), []
+            yield "CurveClamp", [a(Pt(fr, [0.5, 0.0, 0.5]))], lambda x: cb.CurveClamp(x[0], cb.LineCurve(Pt(fr, [0.1, 0.2, 0.3]), Pt(fr, [1.5, -0.4, 0.9]), (0, 1))), [[0.2], [0.9]]
+            yield "TranslationLink", [a(Pt(fr, [1.0, 0.5, 0.25])), a(Pt(fr, [-0.4, 1.3, 0.9]))], lambda x: cb.TranslationLink(x[0], x[1]), None
+            yield "RotationLink", [a(Pt(fr, [1.0, 0.5, 0.25])), a(Pt(fr, [-0.4, 1.3, 0.9])), a(Vc(fr, [0.3, -0.6, 2.0])), a(Pt(fr, [0.2, 0.1, -0.3]))], lambda x: cb.RotationLink(x[0], x[1], x[2], x[3]), None
+            yield "SymmetryLink", [a(Pt(fr, [1.0, 0.5, 0.25])), a(Pt(fr, [-0.4, 1.3, 0.9])), a(Vc(fr, [1.5, 0.5, -1.0])), a(Pt(fr, [0.2, 0.1, -0.3]))], lambda x: cb.SymmetryLink(x[0], x[1], x[2], x[3]), None
+
+        for name, args, make, params in makers():
+            n = len(args)
+            for subset in [c for k in range(1, n + 1) for c in itertools.combinations(range(n), k)]:
+                execs += 1
+                np.random.seed(3)
+                mine = [x.copy() for x in args]
+                np.random.seed(3)
+                obj = make(mine)
+                np.random.seed(3)
+                twin = make([x.copy() for x in args])
+                for i in subset:
+                    mine[i] += np.array([0.37, -0.81, 0.55])
+                try:
+                    if params is not None:
+                        obs = [(np.array(obj.position), np.array(twin.position))]
+                        for pr in params:
+                            obj.update_params(list(pr))
+                            twin.update_params(list(pr))
+                            obs.append((np.array(obj.position), np.array(twin.position)))
+                    else:
+                        obs = []
+                        for k in range(2):
+                            if name == "RotationLink":
+                                new = args[3] + rot(args[0] - args[3], args[2], 0.6 * (k + 1))
+                            else:
+                                new = args[0] + 0.4 * (k + 1) * jitter_vec(k + 1)
+                            obj.leader = np.array(new)
+                            twin.leader = np.array(new)
+                            obj.update()
+                            twin.update()
+                            obs.append((np.array(obj.follower), np.array(twin.follower)))
+                except Exception as err:
+                    bad("inputs-mutated-raised", f"{type(err).__name__}: {err}", type=name, mutated=list(subset))
+                    continue
+                worst = max(float(np.linalg.norm(x - y)) for x, y in obs)
+                if worst > 1e-9:
+                    bad("declared-constraint-follows-callers-array", f"{name}: after the arrays {list(subset)} given to the constructor were changed in place, the object answers {worst:.3g} away from an identical object whose arguments were left alone", type=name, mutated=list(subset))
     elif what == "free":
         pos = Pt(fr, [0.3, 0.7, -1.1])
         cl = cb.FreeClamp(pos)
